@@ -20,7 +20,22 @@ pub fn verdicts_11<B: Block, I: Copy + SymVal, O: Copy, F: Fn(ReadStream<I>) -> 
 ) {
     // enough symbolic input for the schedule plus the probe
     let input = sym_vec::<I>(l + cap + 1);
-    let mut r = Rig11::new(cap, cap, mk);
+    verdicts_11_in(mk, input, l, cap, cap, sched, gone, rounds)
+}
+
+/// Same with a caller-built input vector (its first `l` samples are offered by the schedule,
+/// the rest is available to the probe) and separate capacities.
+pub fn verdicts_11_in<B: Block, I: Copy, O: Copy, F: Fn(ReadStream<I>) -> (B, ReadStream<O>)>(
+    mk: &F,
+    input: Vec<I>,
+    l: usize,
+    cap_in: usize,
+    cap: usize,
+    sched: &[(usize, usize)],
+    gone: bool,
+    rounds: usize,
+) {
+    let mut r = Rig11::new(cap_in, cap, mk);
     let id_in = id_of(&r.tx);
     let id_out = id_of(&r.rx);
     let tx: Option<WriteStream<I>> = None;
@@ -46,7 +61,7 @@ pub fn verdicts_11<B: Block, I: Copy + SymVal, O: Copy, F: Fn(ReadStream<I>) -> 
                 if id == id_in {
                     let have = buffered_w(&r.tx);
                     assert!(have < need, "waits for input although the requested amount is already buffered");
-                    if need <= cap {
+                    if need <= cap_in && r.next + (need - have) <= input.len() {
                         // provide what it asked for, on that stream alone
                         feed(&r.tx, &input, &mut r.next, need - have, &[]);
                         assert!(buffered_w(&r.tx) >= need, "BOUND: could not supply the requested input");
@@ -269,4 +284,25 @@ pub fn sinks(kind: u8, cap: usize, feeds: &[usize], gone: bool) {
     }
     witness!("probe done");
     std::mem::forget((ns, vs, tx, input));
+}
+
+/// AuDecode after a well-formed header: `extra` data bytes offered in the given pieces.
+pub fn au_decode(sched: &[(usize, usize)], l: usize, cap_out: usize, gone: bool) {
+    let mut input: Vec<u8> = Vec::with_capacity(48);
+    for b in [0x2eu8, 0x73, 0x6e, 0x64, 0, 0, 0, 28, 0xff, 0xff, 0xff, 0xff, 0, 0, 0, 3, 0, 0, 0x1f, 0x40, 0, 0, 0, 1, 0, 0, 0, 0] {
+        input.push(b);
+    }
+    for _ in 0..12 {
+        input.push(any::<u8>());
+    }
+    let mk = |src: ReadStream<u8>| rustradio::au::AuDecode::new(src, 8000);
+    verdicts_11_in(&mk, input, l, 40, cap_out, sched, gone, 6);
+}
+
+/// FftStream (stand-in engine) in the enumerated situations.
+pub fn fft_stream(size: usize, l: usize, cap: usize, sched: &[(usize, usize)], gone: bool) {
+    let mk = |src: ReadStream<Complex>| {
+        rustradio::fft_stream::verif_access::with_engine(src, size, std::sync::Arc::new(crate::c10::FakeFft { n: size }))
+    };
+    verdicts_11(&mk, l, cap, sched, gone, 4);
 }
